@@ -196,7 +196,7 @@ func scenarioC02(c *RunCtx) {
 			// makes the next turnover fail; keyed on the start kind so that any other epoch error is still reported
 			for _, o := range w.Pop.Organisms {
 				if len(o.Genotype.Genes) == 0 {
-					c.Fail("geneless-genome", "world [start=%s]: epoch %d produced an organism without genes (crossover of parents that share no innovation number)", w.KindName, e)
+					c.Fail("geneless-genome", "world [start=%s]: epoch %d produced an organism without genes (single-point crossover of unrelated parents whose first genes differ)", w.KindName, e)
 				}
 			}
 		}
